@@ -63,7 +63,9 @@ func wireBody(fd *ast.FuncDecl) string {
 var (
 	reFillFixed = regexp.MustCompile(`^if len\(data\) (>=|>) i\+(\d+|v\.width\(\)) \{ (.*) \} ; return (\d+|v\.width\(\))$`)
 	reFillRaw   = regexp.MustCompile(`^if len\(data\) (>=|>) i\+v\.width\(\) \{ return copy\(data\[i:\], \[\]byte\(v\)\) \} ; return v\.width\(\)$`)
-	reFillProp  = regexp.MustCompile(`^if (.*) \{ return 0 \} ; n := i ; i \+= id\.fill\(data, i\) ; i \+= v\.fill\(data, i\) ; return i - n$`)
+	reFillProp  = regexp.MustCompile(`^if (.*) \{ return \d+ \} ; n := i ; i \+= id\.fill\(data, i\) ; i \+= v\.fill\(data, i\) ; return i (?:-|\+) n$`)
+	// what fillProp returns for the zero value, and how it forms its result (rendered as written)
+	reFillPropTail = regexp.MustCompile(`\{ return (\d+) \} ; n := i ; .* ; return i (-|\+) n$`)
 	reDecFixed  = regexp.MustCompile(`^if len\(data\) (<|<=) (\d+) \{ return unmarshalErr\(v, "", "missing data"\) \} ; \*v = (\w+)\(binary\.BigEndian\.Uint(16|32)\(data\)\) ; return nil$`)
 	reDecByte   = regexp.MustCompile(`^\*v = (\w+)\(data\[0\]\) ; return nil$`)
 	reDecBin = regexp.MustCompile(`^var (\w+) wuint16 ; _ = (\w+)\.UnmarshalBinary\(data\) ; if len\(data\) (<|<=) int\((\w+)\)\+(\d+) \{ return unmarshalErr\(v, "", "missing data"\) \} ; ` +
@@ -210,6 +212,23 @@ func wireGen() (string, []string) {
 		}
 		fmt.Fprintf(&sb, "/-- `%s.fillProp` writes nothing when -/\ndef %s.isZero (v : %s) : Bool := %s\n\n", n, n, t.lean, z)
 	}
+	// ---- what every fillProp returns for the zero value and how it forms its result: (type, return for zero, `i - n`?)
+	sb.WriteString("/-- per wire type: the value `fillProp` returns when it writes nothing, and whether its result is `i - n` -/\ndef fillPropTails : List (String × Nat × Bool) := [")
+	firstTail := true
+	for _, n := range append(append([]string{}, names...), "UserProp") {
+		fd := funcs[n+".fillProp"]
+		if fd == nil {
+			continue
+		}
+		if m := reFillPropTail.FindStringSubmatch(wireBody(fd)); m != nil {
+			if !firstTail {
+				sb.WriteString(", ")
+			}
+			firstTail = false
+			fmt.Fprintf(&sb, "(%q, %s, %v)", n, m[1], m[2] == "-")
+		}
+	}
+	sb.WriteString("]\n\n")
 	// ---- UnmarshalBinary of the fixed-size types, with the width `buffer.get` advances by
 	lt := map[string]string{"<": "<", "<=": "≤"}
 	for _, n := range []string{"bits", "Ident", "wbool", "wuint16", "wuint32"} {
